@@ -76,7 +76,7 @@ impl DecSem {
     }
     fn approx(&self, x: f64) -> R<DV> {
         if x.is_nan() { return Err(Stop::Unspec("FunctionOutsideDomain")); }
-        if !x.is_finite() || x.abs() > 7.0e28 { return Err(Stop::Unspec("ApproximateValueNearOrBeyondRange")); }
+        if !x.is_finite() || x.abs() > 1.0e28 { return Err(Stop::Unspec("ApproximateValueNearOrBeyondRange")); }
         if x != 0.0 && x.abs() < 1e-18 { return Err(Stop::Unspec("ApproximateValueBelowResolution")); }
         self.flags.inexact(1e-9);
         Ok(DV::Approx(x))
@@ -171,7 +171,9 @@ impl Sem for DecSem {
                        let (p, q, s) = align(&x, &y); let (_, r) = p.divrem(&q); classify(&r, s) }
             "pow" => {
                 let (xf, yf) = (to_f64(&x.0, x.1), to_f64(&y.0, y.1));
-                if xf < 0.0 && yf.fract() != 0.0 { return Err(Stop::Unspec("FunctionOutsideDomain")); }
+                // a negative base has a real power only for an integral exponent - decided on the exact decimal, not on its double
+                let y_integral = y.0.divrem(&BigInt::pow10(y.1)).1.is_zero();
+                if xf < 0.0 && !y_integral { return Err(Stop::Unspec("FunctionOutsideDomain")); }
                 if xf == 0.0 && yf <= 0.0 { return Err(Stop::Unspec("FunctionOutsideDomain")); }
                 if yf.abs() > 1e6 { return Err(Stop::Unspec("HugeExponent")); }
                 let r = xf.powf(yf);
